@@ -37,7 +37,13 @@ def gen_case(rng, ctx):
     cls, ds = gen.dataset(rng, classes="D1 D2 D3 D3 D4 D5 D6 D6 D7 D8 D17 D17 D16 D18", nmax=8, mmax=7)
     ds = libx.normalise_raw(ds)
     which = rng.random()
-    if which < 0.12:
+    if which < 0.08:
+        # hostile class: near-equal minima -- complete rankings with ties under a scheme whose tie cost is 2^-40 .. 2^-34
+        # of the inversion cost: scores such as k + p and k + 2p, different in fact, equal for any relative tolerance
+        cls, ds = gen.dataset(rng, classes="D2 D2 D13 D17", nmax=6, mmax=6, outlier=0)
+        ds = libx.normalise_raw(ds)
+        return {"ds": ds, "scheme": gen.scheme_extreme_ratio(rng), "scheme2": None, "dcls": cls, "scls": "S12", "one": False}
+    if which < 0.16:
         # hostile class: several distinct input rankings at the extreme score 0 (ties are free, rankings differ by ties)
         cls, ds = gen.dataset(rng, cls="D13", nmax=7, mmax=6)
         ds = libx.normalise_raw(ds)
@@ -45,10 +51,10 @@ def gen_case(rng, ctx):
                 "scls": "S9", "one": rng.random() < 0.3}
     if which < 0.25:
         scls, sch = "unifying-multiple", gen.scale(ref.PRESETS["unifying"], rng.choice([1.0] + gen.SCALES + gen.ODD_SCALES))
-    elif which < 0.5:
+    elif which < 0.55:
         scls, sch = "unifying-lookalike", unifying_lookalike(rng)
     else:
-        scls, sch = gen.scheme(rng, "S1 S2 S3 S4 S5 S10 S12 S12")
+        scls, sch = gen.scheme(rng, "S1 S2 S3 S4 S5 S10 S12 S12 S12 S14")
     sch2 = gen.scheme(rng, "S1 S2 S3 S11 S9")[1] if rng.random() < 0.7 else None
     return {"ds": ds, "scheme": sch, "scheme2": sch2, "dcls": cls, "scls": scls, "one": rng.random() < 0.5}
 
